@@ -78,4 +78,28 @@ def hashWords (m : Bytes) : List W32 := (blocks (pad m)).foldl CF IV
 
 def hash (m : Bytes) : Bytes := (hashWords m).flatMap w32Bytes
 
+/-- one call on a `hash.Hash` value -/
+inductive Op where
+  | write (d : Bytes)
+  | sum (inp : Bytes)
+  | reset
+deriving DecidableEq, Repr
+
+/-- what the call answers: `Write` its count (the error is nil), `Sum` a byte string, `Reset` nothing -/
+inductive Out where
+  | wrote (n : Nat)
+  | digest (b : Bytes)
+  | none
+deriving DecidableEq, Repr
+
+/-- what every call of a history starting at `New()` has to answer (property C04): `Write d` consumes
+    all of `d`, `Sum inp` gives `inp` followed by the digest of everything written since the last
+    `Reset`, and neither `Sum` nor anything else disturbs the bytes accumulated so far -/
+def runHistory (ops : List Op) : List Out :=
+  (ops.foldl (fun (acc : Bytes × List Out) op =>
+    match op with
+    | .write d => (acc.1 ++ d, .wrote d.length :: acc.2)
+    | .sum inp => (acc.1, .digest (inp ++ hash acc.1) :: acc.2)
+    | .reset => ([], .none :: acc.2)) ([], [])).2.reverse
+
 end SMGo.Spec.SM3
